@@ -296,14 +296,18 @@ class Axis(GetSetDelAttrMixin, AbstractAxis):
         elif other.values.size == 0:
             return self
 
+        def _slope(a):
+            " +1 if increasing, -1 if decreasing, 0 for a single label (fits either direction) "
+            return int(a[-1]>a[0]) - int(a[-1]<a[0])
+
         def _same_slope(a, b):
             " both decreasing or both increasing "
-            return (a[-1]>=a[0])==(b[-1]>=b[0])
+            return _slope(a)*_slope(b) >= 0
 
         if consistent_kinds and self.is_monotonic() and other.is_monotonic() and _same_slope(self.values, other.values):
             # join two sorted axes
             joined = np.union1d(self.values, other.values)
-            if self.values[-1] <= self.values[0]: # decreasing !
+            if _slope(self.values) < 0 or _slope(other.values) < 0: # decreasing !
                 joined = joined[::-1]
 
         else:
